@@ -198,16 +198,20 @@ func fetchCheckpoint(runIds []string, cli client.Redis, db int, checkpointName s
 	} else {
 
 		replyList := reply.([]interface{})
+		offsetId := "" // the run id in the name of the offset field
 		// read line by line and parse the offset
 		for i := 0; i < len(replyList); i += 2 {
 			lineS, _ := common.String(replyList[i], nil)
 
+			id := runIds[0]
 			matchId := strings.HasPrefix(lineS, runIds[0])
 			if !matchId && len(runIds) > 1 {
 				matchId = strings.HasPrefix(lineS, runIds[1])
+				id = runIds[1]
 			}
 			if matchId {
 				if strings.Contains(lineS, CheckpointOffsetSuffix) {
+					offsetId = id
 
 					cpi.Offset, err = common.Int64(replyList[i+1], nil)
 					if err != nil {
@@ -232,6 +236,12 @@ func fetchCheckpoint(runIds []string, cli client.Redis, db int, checkpointName s
 					}
 				}
 			}
+		}
+		// a running replay writes the run id field once per database and the offset field with every batch : when the
+		// stale checkpoint collector removed the entry of a database in between, the offset written afterwards stands
+		// alone. Its field name carries the run id it belongs to.
+		if cpi.RunId == "?" && cpi.Offset >= 0 && offsetId != "" {
+			cpi.RunId = offsetId
 		}
 	}
 	return cpi, nil
